@@ -1720,6 +1720,11 @@ bool CDNS::CdnsBlock::add_question_response_record(const GenericQueryResponse& g
     uint32_t qr_hints = m_block_parameters.storage_parameters.storage_hints.query_response_hints;
     uint32_t qr_sig_hints = m_block_parameters.storage_parameters.storage_hints.query_response_signature_hints;
 
+    // A time offset can't be computed with zero ticks per second, refuse the record before the Block is modified
+    if ((qr_hints & QueryResponseHintsMask::time_offset) && gr.ts
+        && m_block_parameters.storage_parameters.ticks_per_second == 0)
+        throw std::runtime_error("Ticks per second resolution is zero!");
+
     // Check if it'll be the first record in the block and set earliest time if yes
     if (gr.ts && ((m_query_responses.size() == 0 && m_malformed_messages.size() == 0) ||
                   (*gr.ts < m_block_preamble.earliest_time)))
@@ -2035,6 +2040,9 @@ bool CDNS::CdnsBlock::add_question_response_record(const QueryResponse& qr,
     if (fields == 0)
         return full() ? true : false;
 
+    if (qr.time_offset && m_block_parameters.storage_parameters.ticks_per_second == 0)
+        throw std::runtime_error("Ticks per second resolution is zero!");
+
     if (qr.time_offset && ((m_query_responses.size() == 0 && m_malformed_messages.size() == 0) ||
                             (qr.time_offset < m_block_preamble.earliest_time)))
         m_block_preamble.earliest_time = *qr.time_offset;
@@ -2115,6 +2123,10 @@ bool CDNS::CdnsBlock::add_malformed_message(const GenericMalformedMessage& gmm,
     // Check if Malformed messages are buffered in this Block
     if (!(m_block_parameters.storage_parameters.storage_hints.other_data_hints & OtherDataHintsMask::malformed_messages))
         return false;
+
+    // A time offset can't be computed with zero ticks per second, refuse the message before the Block is modified
+    if (gmm.ts && m_block_parameters.storage_parameters.ticks_per_second == 0)
+        throw std::runtime_error("Ticks per second resolution is zero!");
 
     // Check if it'll be the first item in the block and set earliest time if yes
     if (gmm.ts && ((m_query_responses.size() == 0 && m_malformed_messages.size() == 0) ||
@@ -2202,6 +2214,9 @@ bool CDNS::CdnsBlock::add_malformed_message(const MalformedMessage& mm,
 
     if (fields == 0)
         return full() ? true : false;
+
+    if (mm.time_offset && m_block_parameters.storage_parameters.ticks_per_second == 0)
+        throw std::runtime_error("Ticks per second resolution is zero!");
 
     if (mm.time_offset && ((m_query_responses.size() == 0 && m_malformed_messages.size() == 0) ||
                             (mm.time_offset < m_block_preamble.earliest_time)))
